@@ -39,7 +39,7 @@ func NewFlow(p *Prog, cells *cellIndex) *Flow {
 	return &Flow{p: p, cells: cells, Inter: true, Callers: newIPIndex(p), Through: map[string][]int{
 		"context.WithValue": {0}, "context.WithTimeout": {0}, "context.WithCancel": {0}, "context.WithDeadline": {0},
 
-		"fmt.Errorf":            {-1}, "fmt.Sprintf": {-1}, "fmt.Sprint": {-1},
+		"fmt.Errorf": {-1}, "fmt.Sprintf": {-1}, "fmt.Sprint": {-1},
 	}}
 }
 
